@@ -598,3 +598,40 @@ impl ContentLength {
         matches!(*self, Self::Head)
     }
 }
+
+#[cfg(feature = "verif-hooks")]
+impl Stream {
+    pub(super) fn verif_snap(&self) -> crate::verif::StreamSnap {
+        let (sw, sa) = self.send_flow.verif_raw();
+        let (rw, ra) = self.recv_flow.verif_raw();
+        crate::verif::StreamSnap {
+            id: self.id.into(),
+            state: format!("{:?}", self.state),
+            is_counted: self.is_counted,
+            ref_count: self.ref_count,
+            is_pending_send: self.is_pending_send,
+            is_pending_send_capacity: self.is_pending_send_capacity,
+            is_pending_open: self.is_pending_open,
+            is_pending_push: self.is_pending_push,
+            is_pending_accept: self.is_pending_accept,
+            is_pending_window_update: self.is_pending_window_update,
+            is_pending_reset_expiration: self.reset_at.is_some(),
+            send_window: sw,
+            send_available: sa,
+            recv_window: rw,
+            recv_available: ra,
+            in_flight_recv_data: self.in_flight_recv_data,
+            requested_send_capacity: self.requested_send_capacity,
+            buffered_send_data: self.buffered_send_data,
+            send_capacity_inc: self.send_capacity_inc,
+            pending_send_empty: self.pending_send.is_empty(),
+            pending_recv_empty: self.pending_recv.is_empty(),
+            pending_push_promises_empty: self.pending_push_promises.is_empty(),
+            has_send_task: self.send_task.is_some(),
+            has_recv_task: self.recv_task.is_some(),
+            has_push_task: self.push_task.is_some(),
+            is_recv: self.is_recv,
+            content_length: format!("{:?}", self.content_length),
+        }
+    }
+}
